@@ -11,8 +11,8 @@ package dkg
 // by TLC decides their outcome (ok, error, process crash after the effect);
 // ReadAll streams whatever is in the store in arbitrary order, fails to read
 // the entries the behaviour marks unreadable, and always contains junk that
-// must be ignored (other directory, garbage bytes, parameters that fail the
-// tss-lib validation). Pre-parameters are the five tss-lib fixtures of
+// must be ignored (a file of another directory, garbage bytes, a truncated
+// protobuf, a file whose content cannot be read). Pre-parameters are the five tss-lib fixtures of
 // pkg/internal/tecdsatest; a value handed out by GetNow is identified by
 // comparing its marshalled bytes with the fixtures (byte-for-byte).
 
@@ -92,6 +92,7 @@ func (f *c39Fixtures) idOf(pp *PreParams) int {
 type c39File struct {
 	dir, name string
 	data      []byte
+	torn      bool // Content() fails (what the encrypted handle reports for a torn write)
 }
 
 type c39Store struct {
@@ -114,7 +115,7 @@ func (h *c39Handle) Save(data []byte, directory string, name string) error {
 		return fmt.Errorf("verif: disk full")
 	}
 	h.store.mu.Lock()
-	h.store.files[directory+"/"+name] = c39File{directory, name, append([]byte{}, data...)}
+	h.store.files[directory+"/"+name] = c39File{dir: directory, name: name, data: append([]byte{}, data...)}
 	h.store.mu.Unlock()
 	if out == c39.CrashAfter {
 		h.d.Exit()
@@ -167,7 +168,7 @@ func (h *c39Handle) ReadAll() (<-chan persistence.DataDescriptor, <-chan error) 
 	var ds []*c39Descriptor
 	for _, f := range h.store.files { // map order: arbitrary
 		id := h.fx.idOfBytes(f.data)
-		ds = append(ds, &c39Descriptor{f: f, fail: id > 0 && f.dir == dirName && !h.readable[id]})
+		ds = append(ds, &c39Descriptor{f: f, fail: f.torn || (id > 0 && f.dir == dirName && !h.readable[id])})
 	}
 	h.store.mu.Unlock()
 	go func() {
@@ -216,16 +217,15 @@ type c39Rig struct {
 func (r *c39Rig) Name() string { return "dkg" }
 func (r *c39Rig) Reset() {
 	r.store = &c39Store{files: map[string]c39File{}}
-	put := func(dir, name string, data []byte) { r.store.files[dir+"/"+name] = c39File{dir, name, data} }
+	put := func(dir, name string, data []byte, torn bool) {
+		r.store.files[dir+"/"+name] = c39File{dir: dir, name: name, data: data, torn: torn}
+	}
 	// junk that ReadAll must ignore
-	put("membership", "pp_1_aa", r.fx.bytes[4])                          // valid bytes, other directory
-	put(dirName, "pp_0_garbage", []byte{0xff, 0x01, 0x02, 0x03, 0x04})   // not a protobuf
-	empty, _ := (&PreParams{data: r.fx.params[0].data, creationTimestamp: c39Base}).Marshal()
-	put(dirName, "pp_0_truncated", empty[:len(empty)/2])                 // truncated protobuf
-	bad := *r.fx.params[1].data
-	bad.P = r.fx.params[2].data.P // inconsistent: fails ValidateWithProof
-	badBytes, _ := (&PreParams{data: &bad, creationTimestamp: c39Base}).Marshal()
-	put(dirName, "pp_0_invalid", badBytes)
+	put("membership", "pp_1_aa", r.fx.bytes[4], false)                        // valid bytes, other directory
+	put(dirName, "pp_0_garbage", []byte{0xff, 0x01, 0x02, 0x03, 0x04}, false) // not a protobuf
+	whole := r.fx.bytes[0]
+	put(dirName, "pp_0_truncated", whole[:len(whole)/2], false) // truncated protobuf
+	put(dirName, "pp_0_torn", whole[:7], true)                  // content cannot be read / decrypted
 }
 func (r *c39Rig) Disk() []int {
 	r.store.mu.Lock()
@@ -262,6 +262,7 @@ func (r *c39Rig) Boot(d *c39.Driver, inc *c39.Inc, size int, readable []int) c39
 		h.readable[id] = true
 	}
 	lg := log.Logger("verif-c39")
+	_ = log.SetLogLevel("verif-c39", "fatal")
 	st := newPreParamsStorage(h, lg)
 	pool := generator.NewParameterPool[PreParams](lg, &generator.Scheduler{}, &st, size,
 		func(ctx context.Context) *PreParams {
